@@ -77,7 +77,7 @@ def exact_batches(r, svc):
 def run(v, tier, seed, replay):
     lean = C.lean_check(["C20"], tier)
     ok, err = C.cargo_build("fh-rep", ["fh-rep"])
-    n = 150 if tier == "quick" else 6000
+    n = 400 if tier == "quick" else 6000
     r = C.Rng(seed * 1000003 + 20)
     cases = []
     if replay:
